@@ -188,8 +188,15 @@ def main(tier, seed, replay=None):
                     if tr != base:
                         diffs = [(a, b) for a, b in zip(base, tr) if a != b][:3]
                         ck.fail("transcript-differs-from-direct-popen:%s:%s" % (name, diffs[0][0][0] if diffs else "length"), {**ex, "diffs": repr(diffs)[:1500]})
-                    if name.startswith("socket") and gw.remote_status().execmodel != em:
-                        ck.fail("remote-execmodel-not-as-requested:socket", {**ex, "got": gw.remote_status().execmodel})
+                    if name.startswith("socket"):
+                        try:
+                            got = gw.remote_status().execmodel
+                        except Exception as e:  # noqa  (the gateway died during the programs: reported above as a transcript difference)
+                            got = "unavailable:" + type(e).__name__
+                            if tr == base:
+                                ck.fail("gateway-dead-after-programs:" + name, {**ex, "error": repr(e)[:200]})
+                        if got != em and not got.startswith("unavailable"):
+                            ck.fail("remote-execmodel-not-as-requested:socket", {**ex, "got": got})
                 # (C) control operations through the proxy
                 for name, spec in (("direct", "popen//id=c1"), ("via", "popen//id=c2//via=master")):
                     ex = {"control": name, "execmodel": em}
